@@ -134,6 +134,32 @@ func genBigU64(r *rng.R) uint64 {
 		10000000000000000000, 18446744073709551614}[r.Intn(7)]
 }
 
+// white space the writer accepts in a resource name (everything except '|' and line breaks must round-trip byte
+// for byte): ASCII blank / tab / VT / FF, NBSP, NEL, Unicode spaces, also as non-UTF-8 bytes
+var blanks = []string{" ", "\t", "  ", " \t ", "\v", "\f", "\u00a0", "\u0085", "\u2003", "\u3000", "\u2028", "\xa0", "\x85"}
+
+// genBlankFamily: names that differ only in surrounding / inner white space (written within one case, often
+// within one second, and queried by their exact bytes)
+func genBlankFamily(r *rng.R) []string {
+	base := []string{"svc", "GET /orders", "job:nightly", "é", "x", ""}[r.Intn(6)]
+	b1, b2 := blanks[r.Intn(len(blanks))], blanks[r.Intn(len(blanks))]
+	fam := []string{base, b1 + base, base + b2, b1 + base + b2}
+	switch r.Intn(4) {
+	case 0:
+		fam = append(fam, b1) // white space only
+	case 1:
+		fam = append(fam, base+b1+base) // inner white space
+	case 2:
+		fam = append(fam, "\xff"+base+b2, base+"\xc3") // not UTF-8
+	}
+	// keep 2-4 of them, in random order
+	for i := len(fam) - 1; i > 0; i-- {
+		j := r.Intn(i + 1)
+		fam[i], fam[j] = fam[j], fam[i]
+	}
+	return fam[:2+r.Intn(3)]
+}
+
 func genU64(r *rng.R) uint64 {
 	switch r.Intn(12) {
 	case 0:
@@ -177,6 +203,9 @@ func gen(r *rng.R, id int, cutMode string) caseT {
 	var names []string
 	for i := 0; i < nn; i++ {
 		names = append(names, genName(r))
+	}
+	if r.Chance(1, 6) {
+		names = genBlankFamily(r)
 	}
 	nw := 8 + r.Intn(14)
 	maxItems := 3
@@ -591,7 +620,7 @@ func main() {
 	clk.Install()
 	root := rng.New(a.Seed)
 	rep := emit.NewReport("C17", a.Seed, a.Tier)
-	rep.Rule = "a case = one writer + ONE searcher on a fresh directory, pinned zone: 5-21 Write calls (same second / next second / gaps / local midnight / day jumps / older seconds / ts 0 / empty batches; 0-3 items with unicode, long, blank, empty, numeric-looking names and boundary field values) interleaved with 3-25 queries (both kinds, begin times around written seconds, mostly non-decreasing so the cached position is used); classes manyrolls (>= 11 files in a day), tiny-retention (MaxFileAmount 1-3), rolls, single-file, sizes (ids 2000000+: resource-name and whole-line lengths at / next to the buffer sizes 4096, 8192, 65536 and tiny lengths, 19-20 digit counters, 40-200 items in one batch, one item per file), cut (truncation sweep of last data + idx file, fresh searcher per cut, 4 queries). Non-trivial = at least one file roll AND at least one query returning items AND at least one query answered from the cached position (normal cases) / at least one cut strictly inside a line or an index entry (cut cases); distinct by full input."
+	rep.Rule = "a case = one writer + ONE searcher on a fresh directory, pinned zone: 5-21 Write calls (same second / next second / gaps / local midnight / day jumps / older seconds / ts 0 / empty batches; 0-3 items with unicode, long, blank, empty, numeric-looking names and boundary field values) interleaved with 3-25 queries (both kinds, begin times around written seconds, mostly non-decreasing so the cached position is used); classes manyrolls (>= 11 files in a day), tiny-retention (MaxFileAmount 1-3), rolls, single-file, blank-families (1 case in 6: 2-4 names that differ only in leading / trailing / inner white space - blank, tab, VT, FF, NBSP, NEL, Unicode spaces, non-UTF-8 bytes - or are white space only), sizes (ids 2000000+: resource-name and whole-line lengths at / next to the buffer sizes 4096, 8192, 65536 and tiny lengths, 19-20 digit counters, 40-200 items in one batch, one item per file), cut (truncation sweep of last data + idx file, fresh searcher per cut, 4 queries). Non-trivial = at least one file roll AND at least one query returning items AND at least one query answered from the cached position (normal cases) / at least one cut strictly inside a line or an index entry (cut cases); distinct by full input."
 	nCorr := a.Pick(a.N, 52, 1500)
 	nMon := a.Pick(a.Mon, 1000, 25000)
 	nCutCorr := a.Pick(a.N/12, 4, 20)
